@@ -339,7 +339,9 @@ def run_worker(ctx):
                        'variant': variant})
     # ------------------------------- default policy at other microversions
     vcells = []
-    for ver in SWEEP_VERSIONS:
+    sweep_versions = SWEEP_VERSIONS if not ctx.thorough else \
+        ['1.%d' % i for i in range(39)] + [None, 'latest']
+    for ver in sweep_versions:
         vnum = c14.applied(ver)
         for (m, route, path, body, missing) in BASE_OPS:
             vbody = c14.plausible_body(route, m, vnum) \
@@ -389,6 +391,7 @@ def run_worker(ctx):
                                  {'status': r.status}), {'kind': 'root'})
     # -------------------------------------------- single-rule overrides
     configs = [(rule, chk) for rule in sorted(RULES) for chk in ('!', '@')]
+    available = {}
     tmpdir = tempfile.mkdtemp(prefix='pv-pol-', dir=svc.workdir)
     try:
         for i, (rule, chk) in enumerate(configs):
@@ -399,7 +402,33 @@ def run_worker(ctx):
                 f.write('"%s": "%s"\n' % (rule, chk))
             app, _conf = svc.make_app(policy_file=pf)
             caller = 'admin' if chk == '!' else 'no-roles'
-            for (m, route, path, body, missing) in OPS:
+            work = [(m, route, path, body, V) for
+                    (m, route, path, body, missing) in OPS]
+            # the same override at older microversions: every handler window
+            # has its own authorisation call and rule constant
+            for ver in ctx.pick(['1.18', '1.6'],
+                                ['1.37', '1.33', '1.29', '1.27', '1.19',
+                                 '1.18', '1.12', '1.11', '1.7', '1.6',
+                                 '1.1']):
+                vnum = c14.applied(ver)
+                for (m, route, path, body, missing) in BASE_OPS:
+                    vb = c14.plausible_body(route, m, vnum) \
+                        if m in ('PUT', 'POST') else None
+                    vp = path
+                    if route == '/allocations/{consumer_uuid}' and m == 'PUT':
+                        vb = c14.alloc_body(vnum, {P1: {'VCPU': 2}})
+                    if route == '/resource_classes/{name}' and m == 'PUT' \
+                            and vnum < 7:
+                        vp = '/resource_classes/CUSTOM_PV_T2'
+                    key = (ver, m, route)
+                    if key not in available:
+                        svc.restore(snap)
+                        ra = send(svc, None, m, vp, vb,
+                                  authorised_caller(route), ver)
+                        available[key] = ra.status not in (404, 405, 406)
+                    if available[key]:
+                        work.append((m, route, vp, vb, ver))
+            for (m, route, path, body, ver) in work:
                 in_rule = (m, route) in RULES[rule]
                 if chk == '!':
                     # reshaper is refused to the admin anyway
@@ -409,9 +438,10 @@ def run_worker(ctx):
                     caller = 'no-roles'
                     expect_allowed = in_rule
                 svc.restore(snap)
-                r = send(svc, app, m, path, body, caller)
+                r = send(svc, app, m, path, body, caller, ver)
                 stats.evaluations += 1
-                stats.nontriv(stable_hash([rule, chk, m, route, path, body]))
+                stats.nontriv(stable_hash([rule, chk, m, route, path, body,
+                                           ver]))
                 ok = r.ok or r.status not in (401, 403)
                 try:
                     if expect_allowed and r.status in (401, 403):
@@ -421,7 +451,8 @@ def run_worker(ctx):
                              if chk == '!' else
                              'override-open-did-not-open-operation',
                              'rule': rule, 'method': m, 'route': route},
-                            {'status': r.status, 'caller': caller})
+                            {'status': r.status, 'caller': caller,
+                             'version': ver})
                     if not expect_allowed and ok:
                         raise Violation(
                             {'clause': 'override-deny-did-not-deny-operation'
